@@ -102,8 +102,31 @@ pub(crate) fn create_where_predicates_from_all_generic_parameters(
     where_predicates
 }
 
+/// Whether the tokens of a type contain the name of one of the type or const parameters.
+fn mentions_generic_parameter(ty: &Type, params: &Punctuated<GenericParam, Comma>) -> bool {
+    fn check(token_stream: proc_macro2::TokenStream, names: &[String]) -> bool {
+        token_stream.into_iter().any(|token_tree| match token_tree {
+            proc_macro2::TokenTree::Ident(ident) => names.iter().any(|name| ident == name),
+            proc_macro2::TokenTree::Group(group) => check(group.stream(), names),
+            _ => false,
+        })
+    }
+
+    let names: Vec<String> = params
+        .iter()
+        .filter_map(|param| match param {
+            GenericParam::Type(ty) => Some(ty.ident.to_string()),
+            GenericParam::Const(c) => Some(c.ident.to_string()),
+            GenericParam::Lifetime(_) => None,
+        })
+        .collect();
+
+    check(ty.into_token_stream(), &names)
+}
+
 #[inline]
 pub(crate) fn create_where_predicates_from_generic_parameters_check_types(
+    params: &Punctuated<GenericParam, Comma>,
     bound_trait: &Path,
     types: &[&Type],
     supertraits: &[proc_macro2::TokenStream],
@@ -111,6 +134,13 @@ pub(crate) fn create_where_predicates_from_generic_parameters_check_types(
     let mut where_predicates = Punctuated::new();
 
     for t in types {
+        // A bound on a type which depends on no type or const parameter is either trivially
+        // true or a compile error anyway, and two such bounds which differ only in lifetimes
+        // (`&'a str: Debug, &'b str: Debug`) make the impl ambiguous for rustc (E0283).
+        if !mentions_generic_parameter(t, params) {
+            continue;
+        }
+
         where_predicates.push(syn::parse2(quote! { #t: #bound_trait }).unwrap());
     }
 
